@@ -10,6 +10,7 @@ import (
 	"log/slog"
 	"net"
 	"net/http"
+	"os"
 	"sort"
 	"strings"
 	"sync"
@@ -50,15 +51,56 @@ type hResult struct {
 	events []string
 	hung   bool
 	stream string
+	clash  bool // an address the scenario believed free was taken by someone else: not a result
 }
 
+// freeAddr hands out loopback addresses below the kernel's ephemeral range (32768-60999): a port found by
+// binding :0 can be taken again, before the scenario uses it, by any outgoing connection of the harness (its
+// readiness probes and HTTP clients) or by a parallel scenario.  Ports are unique within the process and
+// spread by pid across processes; each is bound once to make sure nobody holds it now.
+var addrCounter atomic.Int64
+
 func freeAddr() string {
+	for tries := 0; tries < 4000; tries++ {
+		n := addrCounter.Add(1)
+		port := 12000 + (int(n)*7+os.Getpid()*131)%19000
+		l, err := net.Listen("tcp", fmt.Sprintf("127.0.0.1:%d", port))
+		if err != nil {
+			continue
+		}
+		a := l.Addr().String()
+		_ = l.Close()
+		return a
+	}
 	l, err := net.Listen("tcp", "127.0.0.1:0")
 	must(err)
 	a := l.Addr().String()
 	_ = l.Close()
 	return a
 }
+
+// clashHandler notices "address already in use" in the runner's log while the configuration in force is one the
+// scenario believes to be bindable: the machine, not the runner, is at fault and the scenario is run again.
+type clashHandler struct {
+	busyNow *atomic.Bool
+	clash   *atomic.Bool
+}
+
+func (h clashHandler) Enabled(context.Context, slog.Level) bool { return true }
+func (h clashHandler) Handle(_ context.Context, r slog.Record) error {
+	if h.busyNow.Load() {
+		return nil
+	}
+	r.Attrs(func(a slog.Attr) bool {
+		if strings.Contains(a.Value.String(), "address already in use") {
+			h.clash.Store(true)
+		}
+		return true
+	})
+	return nil
+}
+func (h clashHandler) WithAttrs([]slog.Attr) slog.Handler { return h }
+func (h clashHandler) WithGroup(string) slog.Handler      { return h }
 
 // recordingServer wraps the real http.Server so that creations and ListenAndServe calls are visible.
 type recordingServer struct {
@@ -86,6 +128,9 @@ func runHTTPScenario(sc HScenario) hResult {
 	}()
 	var created atomic.Int32
 	var inflightWg sync.WaitGroup
+	var occMu sync.Mutex
+	occupied := map[int]bool{}
+	var busyNow, envClash atomic.Bool
 	mkConfig := func(ci int) (*httpserver.Config, error) {
 		c := sc.Configs[ci]
 		var routes httpserver.Routes
@@ -134,13 +179,19 @@ func runHTTPScenario(sc HScenario) hResult {
 			if err == nil {
 				foreign = append(foreign, l)
 			}
+			occMu.Lock()
+			occupied[c.Addr] = true
+			occMu.Unlock()
 		}
+		occMu.Lock()
+		busyNow.Store(occupied[c.Addr])
+		occMu.Unlock()
 		rec.add("CB%d:%d", k, idx)
 		cfg, err := mkConfig(idx)
 		must(err)
 		return cfg, nil
 	}
-	runner, err := httpserver.NewRunner(httpserver.WithConfigCallback(cb), httpserver.WithLogHandler(slog.NewTextHandler(io.Discard, nil)))
+	runner, err := httpserver.NewRunner(httpserver.WithConfigCallback(cb), httpserver.WithLogHandler(clashHandler{&busyNow, &envClash}))
 	if err != nil {
 		return hResult{events: []string{"NEWERR"}}
 	}
@@ -153,6 +204,9 @@ func runHTTPScenario(sc HScenario) hResult {
 		res := runner.Run(ctx)
 		cls := "nil"
 		if res != nil {
+			if strings.Contains(res.Error(), "address already in use") && !busyNow.Load() {
+				envClash.Store(true)
+			}
 			cls = "other"
 			if errors.Is(res, httpserver.ErrGracefulShutdownTimeout) {
 				cls = "drainTimeout"
@@ -390,6 +444,7 @@ func runHTTPScenario(sc HScenario) hResult {
 		async = async || op.Async
 	}
 	res.stream = streamLine(watch, ret, !async)
+	res.clash = envClash.Load()
 	return res
 }
 
@@ -558,6 +613,7 @@ func runHTTPSrv(o Opts) {
 	}
 	results := make([]hResult, len(jobs))
 	var wg sync.WaitGroup
+	var clashes atomic.Int32
 	sem := make(chan struct{}, 12)
 	for i := range jobs {
 		wg.Add(1)
@@ -565,10 +621,17 @@ func runHTTPSrv(o Opts) {
 		go func(i int) {
 			defer wg.Done()
 			defer func() { <-sem }()
-			results[i] = runHTTPScenario(jobs[i].sc)
+			for attempt := 0; attempt < 4; attempt++ {
+				results[i] = runHTTPScenario(jobs[i].sc)
+				if !results[i].clash {
+					break
+				}
+				clashes.Add(1)
+			}
 		}(i)
 	}
 	wg.Wait()
+	e.Stats["env:port-clash-reruns"] += int(clashes.Load())
 	for i, j := range jobs {
 		r := results[i]
 		e.Stats["gen:"+j.kind]++
